@@ -142,7 +142,7 @@ func newMulti(kind string, l geom.Layout) multi {
 }
 
 var c02Kinds = []string{"poly", "mls", "mpoint", "mpoly"}
-var c02Layouts = []geom.Layout{geom.XY, geom.XYZ, geom.XYM, geom.XYZM, 5, 6}
+var c02Layouts = []geom.Layout{geom.XY, geom.XYZ, geom.XYM, geom.XYZM, 5, 6, 8, 9, 12, 17}
 
 // ---- GeometryCollection histories: variadic Push, SetLayout, Layout, NumGeoms, Geom, Geoms ----
 
